@@ -14,6 +14,72 @@ EXPLANATION = ("valid binary documents (spec-derived encoder with representation
                "the reader model (Bin/BinReader.v r_run) to the real Reader on the same programs.")
 
 
+ACC = {2: "BO", 3: "BI", 4: "FL", 5: "DE", 6: "TS", 7: "SY", 8: "ST", 9: "BY", 10: "BY"}
+
+
+def observe(c, prog, n):
+    """n times: Next, then everything observable about the value the cursor stands on"""
+    for _ in range(n):
+        for o in ("N", "TY", "NU", "AN"):
+            prog.append(o)
+            c.op(o)
+        if c.cur is not None:
+            o = ACC.get(c.typ(), "IS")
+            prog.append(o)
+            c.op(o)
+
+
+def stepout_programs(forest, limit=40):
+    """leave every container (two levels deep) at every position: standing on child k for each k, and after the end;
+    then observe the following siblings.  What comes after a container must not depend on where it was left."""
+    progs = []
+    for i, (_, body) in enumerate(forest):
+        if body[0] not in ("list", "sexp", "struct"):
+            continue
+        for k in range(0, len(body[1]) + 2):
+            c = cursor.Cursor(forest)
+            prog = []
+            for o in ["N"] * (i + 1) + ["SI"] + ["N"] * k + ["SO"]:
+                prog.append(o)
+                c.op(o)
+            observe(c, prog, 2)
+            progs.append(prog)
+            # one level deeper: into child k, onto each of its children, out twice
+            if 1 <= k <= len(body[1]):
+                inner = body[1][k - 1]
+                inner = inner[1] if body[0] == "struct" else inner
+                if inner[1][0] in ("list", "sexp", "struct"):
+                    for k2 in range(0, len(inner[1][1]) + 2):
+                        c = cursor.Cursor(forest)
+                        prog = []
+                        for o in ["N"] * (i + 1) + ["SI"] + ["N"] * k + ["SI"] + ["N"] * k2 + ["SO"]:
+                            prog.append(o)
+                            c.op(o)
+                        observe(c, prog, 1)
+                        prog.append("SO")
+                        c.op("SO")
+                        observe(c, prog, 1)
+                        progs.append(prog)
+            if len(progs) >= limit:
+                return progs
+    return progs
+
+
+def null_last_forests():
+    """containers whose last child is a null of every type, followed by a non-null sibling"""
+    fs = []
+    tails = [([], ("int", 5)), ([], ("struct", [(b"c", ([], ("int", 2)))])), ([], ("str", b"tail")), ([b"a"], ("list", [([], ("int", 1))]))]
+    for ty in [iongen.TNULL] + list(range(1, 14)):
+        nul = ([], ("null", ty))
+        anul = ([b"ann"], ("null", ty))
+        for j, tail in enumerate(tails):
+            fs.append([([], ("list", [([], ("int", 1)), nul])), tail])
+            fs.append([([], ("sexp", [anul])), tail])
+            fs.append([([], ("struct", [(b"a", ([], ("int", 1))), (b"b", nul)])), tail])
+            fs.append([([], ("list", [([], ("list", [([], ("str", b"x")), nul])), ([], ("int", 9))])), tail])
+    return fs
+
+
 def run(ctx):
     rng = ctx.rng
     forests = binlib.gen_forests(ctx, ctx.scale(500, 10000), {"depth": 4, "p_container": 0.45})
@@ -23,6 +89,13 @@ def run(ctx):
     for f, d in zip(forests, docs):
         for _ in range(nprog):
             p = cursor.gen_program(f, rng, rng.choice([6, 12, 25, 60]))
+            lines.append("brd 0 %s %s" % (iongen.hx(d), " ".join(p)))
+            exp.append(cursor.run_program(f, p))
+    # systematic: every container left at every position
+    nl = null_last_forests()
+    sysf = nl + forests[:ctx.scale(150, 3000)]
+    for f, d in zip(sysf, binlib.encode_docs(ctx, nl, True) + docs[:ctx.scale(150, 3000)]):
+        for p in stepout_programs(f):
             lines.append("brd 0 %s %s" % (iongen.hx(d), " ".join(p)))
             exp.append(cursor.run_program(f, p))
     mo, go = ctx.correspond("K2-binreader-programs", lines, canon=binlib.canon_trace_full,
